@@ -87,7 +87,10 @@ func (e *skipConcEngine) step(toks []string) string {
 			cfg.Free = e.alloc.Free
 			cfg.BarrierDestructor = func(ref unsafe.Pointer) {
 				if e.freeing && ref != nil {
-					e.s.FreeNode((*skiplist.Node)(ref), &e.s.Stats)
+					n := (*skiplist.Node)(ref)
+					itm := n.Item()
+					e.s.FreeNode(n, &e.s.Stats)
+					e.alloc.Free(itm)
 					atomic.AddInt64(&e.freed, 1)
 				}
 			}
@@ -136,10 +139,20 @@ func (e *skipConcEngine) step(toks []string) string {
 			if !ok || !ok2 || len(toks) != 5 {
 				return "bad-op"
 			}
-			itm := skiplist.NewIntKeyItem(k)
-			e.keep = append(e.keep, itm)
+			var itm unsafe.Pointer
+			if e.freeing {
+				// like a nitro item, the item lives in user-managed memory and is freed together with its node
+				itm = e.alloc.Malloc(8)
+				*(*int)(itm) = k
+			} else {
+				itm = skiplist.NewIntKeyItem(k)
+				e.keep = append(e.keep, itm)
+			}
 			f = func() string {
 				_, succ := s.Insert2(itm, skiplist.CompareInt, nil, buf, scripted(l), &s.Stats)
+				if !succ && e.freeing {
+					e.alloc.Free(itm)
+				}
 				return fmt.Sprint(succ)
 			}
 		case "del", "look", "delf":
